@@ -186,6 +186,15 @@ void make_items(const Options& o, std::vector<Item>& items)
     add({{COMMIT}}, {Reader{1, 0, false}, Reader{2, 1, true}}, 2, 3);
     add({{COMMIT, COMMIT}}, {Reader{2, 2, true}, Reader{1, 3, false}}, 2, 3);
     if (thorough) {
+        // systematic: every pair of writer op sequences (<= 2 ops each) x reader kinds
+        std::vector<std::vector<Reader>> rsets = {{}, {Reader{1, 0, false}}, {Reader{2, 1, true}}, {Reader{2, 2, false}},
+                                                  {Reader{1, 3, false}, Reader{2, 0, true}}};
+        for (size_t a = 0; a < wseq.size(); a++)
+            for (size_t b = a; b < wseq.size(); b++)
+                for (auto& rs : rsets) {
+                    if (wseq[a].size() + wseq[b].size() == 4 && rs.size() == 2) continue;
+                    add({wseq[a], wseq[b]}, rs, 2, 6);
+                }
         add({{COMMIT}, {COMMIT}, {COMMIT}}, {}, 2, 3);
         add({{COMMIT}, {CANCEL}, {MOVE_COMMIT}}, {Reader{1, 0, false}}, 2, 2);
         add({{COMMIT, COMMIT}, {COMMIT}}, {Reader{2, 0, true}}, 2, 3);
